@@ -53,6 +53,15 @@ func (c *Ctx) computeInfeasible() {
 			default:
 				continue
 			}
+			if isNilConst(stripConv(x)) {
+				// nil compared with nil (a function variable bound to nil by the expansion of a dispatch table)
+				if bin.Op == token.EQL {
+					infeasibleEdges[b] = 1 + 1
+				} else {
+					infeasibleEdges[b] = 0 + 1
+				}
+				continue
+			}
 			if !c.knownNonNil(x, map[ssa.Value]bool{}) {
 				// a repeated test of a value below an edge that already decided it
 				last := b.Instrs[len(b.Instrs)-1]
